@@ -16,15 +16,15 @@ META = dict(
          "AddWithReplicas / Remove over string, struct and Stringer nodes) up to 3-4 operations plus seeded long "
          "random histories (spec/ConsistentHashGen.tla); a black-box driver executes them on the real "
          "hash.ConsistentHash and records after every operation the node returned for 16 probe keys (twice) and, "
-         "over a population of 2000-10000 keys, the owner counts and every from->to move; TLC validates each "
+         "over a population of 500-5000 keys, the owner counts and every from->to move; TLC validates each "
          "recorded step against spec/ConsistentHash.tla (total, stable, only the changed node's keys move, "
          "weight 0 / removed node owns nothing, re-add replaces). The contract itself is model-checked "
          "(implementable, invariants, action properties) and a ring mechanism model refines it.",
     note="The hash function is environment: assignment vectors are observed, never predicted. 'Roughly "
          "proportional to weight' is a driver statistic (nodes with >= 50 virtual nodes, flagged beyond a factor 2, "
-         "recorded in evidence). Ring-position collisions are outside the claim. cache.New / kv.NewStore are "
-         "covered only through the dispatcher they share (hash.ConsistentHash); their own key->shard stability "
-         "is not driven. Bounds: 3-4 nodes, weights {0,1,50,100}, replicas {0,50,100,200}, base 100 and 200.",
+         "recorded in evidence). Ring-position collisions are outside the claim. cache.New / kv.New are driven "
+         "over two to four in-process redis servers with 5-9 weight vectors: the server observed to hold a key "
+         "(miniredis inspection) has positive weight and stays the same across Set, Del+Set, batch Del+Set. Bounds: 3-4 nodes, weights {0,1,50,100}, replicas {0,50,100,200}, base 100 and 200.",
     technique="TLA+ contract spec + TLC-generated histories + TLC trace validation of the real ring's lookups",
     design="4/C13")
 
@@ -49,13 +49,17 @@ def mc(ctx):
     r = ctx.tlc("ConsistentHash", cfg, constants=K, name="ConsistentHash-mc", timeout=600, workers=6)
     if r.distinct < 100:
         raise core.Infra("vacuous model: ConsistentHash-mc has only %d states" % r.distinct)
-    if os.path.exists(os.path.join(core.SPEC, "ConsistentHashImpl.tla")):
-        K2 = dict(Nodes='{"n1", "n2", "n3"}', Probe="1..2", Base=2, Weights="{0, 50, 100}", Reps="{0, 1}", M=7)
-        cfg = core.render_cfg(spec="ISpec", constants=K2, invariants=["ITypeOK", "InvTotal", "ZeroOwnsNothing"],
-                              properties=["Refines", "Stable", "RemoveOnlyOwn", "AddOnlyToNew", "Disruption"], view="iview")
-        r = ctx.tlc("ConsistentHashImpl", cfg, constants=K2, name="ConsistentHashImpl-mc", timeout=900, workers=6)
-        if r.distinct < 100:
-            raise core.Infra("vacuous model: ConsistentHashImpl-mc has only %d states" % r.distinct)
+    # the ring mechanism (ConsistentHashImpl.tla) refines the contract, for every placement of the virtual
+    # nodes and probe keys on a small ring
+    if ctx.quick:
+        K2 = dict(Nodes='{"n1", "n2"}', Probe="1..2", Base=2, Weights="{0, 50, 100}", Reps="{0, 1, 3}", M=5)
+    else:
+        K2 = dict(Nodes='{"n1", "n2", "n3"}', Probe="1..1", Base=2, Weights="{0, 50, 100}", Reps="{0, 1}", M=6)
+    cfg = core.render_cfg(spec="ISpec", constants=K2, invariants=["ITypeOK", "InvTotal", "ZeroOwnsNothing"],
+                          properties=["Refines", "Stable", "RemoveOnlyOwn", "AddOnlyToNew", "Disruption"], view="iview")
+    r = ctx.tlc("ConsistentHashImpl", cfg, constants=K2, name="ConsistentHashImpl-mc", timeout=1200, workers=6)
+    if r.distinct < 500:
+        raise core.Infra("vacuous model: ConsistentHashImpl-mc has only %d states" % r.distinct)
 
 
 # ------------------------------------------------------------------------------- generate
@@ -71,21 +75,17 @@ def gen(ctx, name, nodes, weights, reps, base, maxops, simulate=None):
 
 # ------------------------------------------------------------------------------- record
 
-def record(ctx, binp, label, cases_path, base, pop, shards=16):
-    prefix = os.path.join(ctx.build, "trace-" + label)
-    cnt, bad = ctx.replay(PKG, OVERLAY, RUN, cases_path, label=label, binp=binp, shards=shards,
-                          env=dict(VERIF_BASE=base, VERIF_POP=pop, VERIF_TRACE=prefix), source="record")
-    if bad:
-        raise core.Infra("C13 recorder reported verdicts (it must only record): %s" % bad[:2])
+def split_traces(prefix):
+    import glob
     hists = []          # list of lists of raw lines, one per history
-    for i in range(shards):
-        p = "%s-%d.ndjson" % (prefix, i)
-        if not os.path.exists(p):
-            raise core.Infra("trace file missing: " + p)
+    paths = sorted(glob.glob(prefix + "-*.ndjson"))      # core may cap the number of shards
+    if not paths:
+        raise core.Infra("no trace file written: " + prefix)
+    for p in paths:
         cur = None
         with open(p) as f:
             for line in f:
-                if line.startswith('{"base"') or '"ev":"reset"' in line[:60]:
+                if '"ev":"reset"' in line[:80]:
                     cur = [line]
                     hists.append(cur)
                 elif cur is not None:
@@ -94,6 +94,15 @@ def record(ctx, binp, label, cases_path, base, pop, shards=16):
                     raise core.Infra("trace %s does not start with a reset event" % p)
         os.remove(p)
     return hists
+
+
+def record(ctx, binp, label, cases_path, base, pop, shards=16):
+    prefix = os.path.join(ctx.build, "trace-" + label)
+    cnt, bad = ctx.replay(PKG, OVERLAY, RUN, cases_path, label=label, binp=binp, shards=shards,
+                          env=dict(VERIF_BASE=base, VERIF_POP=pop, VERIF_TRACE=prefix), source="record")
+    if bad:
+        raise core.Infra("C13 recorder reported verdicts (it must only record): %s" % bad[:2])
+    return split_traces(prefix)
 
 
 # ------------------------------------------------------------------------------- validate
@@ -161,6 +170,7 @@ def validate(ctx, label, hists, spec, cases_path, chunk_events=20000, par=6):
             cur, n = [], 0
     if cur:
         chunks.append(cur)
+    par = max(1, min(par, getattr(core, "maxpar", lambda: par)()))
     lock = threading.Lock()
     stats = dict(accepted=0, rejected=0, events=0, skipped_after_rejects=0)
     with ThreadPoolExecutor(max_workers=par) as ex:
@@ -238,6 +248,30 @@ def shares(ctx, hists, base, acc):
     return acc
 
 
+# ------------------------------------------------------------------------------- cache.New / kv.New
+
+PKG2 = "./lib/store/kv"
+OVERLAY2 = {"lib/store/kv/zz_verif_c13_test.go": "c13/cluster_test.go"}
+
+
+def cluster(ctx):
+    """The two users of the ring named by the property: shard of a key observed on the redis servers."""
+    ws = [[100, 100, 100], [100, 50, 0], [1, 100, 100], [0, 100, 0], [50, 50]]
+    if not ctx.quick:
+        ws += [[100, 1, 1], [0, 0, 100], [100, 0, 50, 100], [30, 60, 90, 100]]
+    cases = [dict(kind=k, weights=w) for k in ("cache", "kv") for w in ws]
+    path, cnt = ctx.write_cases("cluster.ndjson", cases)
+    prefix = os.path.join(ctx.build, "trace-cluster")
+    c, bad = ctx.replay(PKG2, OVERLAY2, "^TestVerifC13Cluster$", path, label="cluster", shards=2,
+                        env=dict(VERIF_TRACE=prefix, VERIF_POP=(300 if ctx.quick else 1500)), source="record")
+    if bad:
+        raise core.Infra("C13 cluster recorder reported verdicts (it must only record): %s" % bad[:2])
+    hists = split_traces(prefix)
+    if len(hists) != cnt:
+        raise core.Infra("cluster: %d cases, %d recorded" % (cnt, len(hists)))
+    validate(ctx, "cluster", hists, tspec(consts(ALL_NODES, [0], [0], 100)), path)
+
+
 # ------------------------------------------------------------------------------- run
 
 def run(ctx):
@@ -245,15 +279,15 @@ def run(ctx):
     binp = ctx.go_build(PKG, OVERLAY, name="c13drv")
     W, R = [0, 1, 50, 100], [0, 50, 100, 200]
     if ctx.quick:
-        plans = [("g3", ALL_NODES[:3], W, R, 100, 3, None, 1000),
+        plans = [("g3", ALL_NODES[:3], W, R, 100, 3, None, 500),
                  ("g2b", ALL_NODES, W, R, 200, 2, None, 2000),
-                 ("s30", ALL_NODES, W, R, 100, 30, 300, 10000)]
+                 ("s30", ALL_NODES, W, R, 100, 30, 200, 5000)]
     else:
-        plans = [("g3", ALL_NODES, W, R, 100, 3, None, 2000),
-                 ("g3b", ALL_NODES[:3], W, R, 200, 3, None, 2000),
-                 ("g4", ALL_NODES[:3], [0, 1, 100], [0, 50, 200], 100, 4, None, 1000),
-                 ("s30", ALL_NODES, W, R, 100, 30, 2000, 10000),
-                 ("s30b", ALL_NODES, W, R, 200, 30, 1000, 10000)]
+        plans = [("g3", ALL_NODES, W, R, 100, 3, None, 1000),
+                 ("g3b", ALL_NODES[:3], W, R, 200, 3, None, 1000),
+                 ("g4", ALL_NODES[:3], [0, 100], [0, 50], 100, 4, None, 500),
+                 ("s30", ALL_NODES, W, R, 100, 30, 2000, 4000),
+                 ("s30b", ALL_NODES, W, R, 200, 30, 500, 4000)]
     ctx.exhaustive = True
     acc = dict(min=9.9, max=0.0, seen=set())
     for name, nodes, w, r, base, maxops, sim, pop in plans:
@@ -267,6 +301,7 @@ def run(ctx):
             raise core.Infra("%s: %d histories generated, %d recorded" % (name, cnt, len(hists)))
         validate(ctx, name, hists, tspec(consts(ALL_NODES, w, r, base)), path)
         shares(ctx, hists, base, acc)
+    cluster(ctx)
     ctx.notes["share_ratio_min_max"] = [round(acc["min"], 3), round(acc["max"], 3)]
     ctx.notes["share_memberships_measured"] = len(acc["seen"])
     ctx.states = sum(t["distinct"] for t in ctx.tlc_runs)
